@@ -330,10 +330,10 @@ where
         let mut left_cumulative = cdf.next().expect("cdf is not empty");
         let cdf = cdf.chain(core::iter::once(wrapping_pow2(PRECISION)));
 
-        let symbol_table = symbols
-            .into_iter()
-            .zip(cdf)
-            .map(|(symbol, right_cumulative)| {
+        let mut symbols = symbols.into_iter();
+        let symbol_table = cdf
+            .zip(&mut symbols)
+            .map(|(right_cumulative, symbol)| {
                 let probability = right_cumulative
                     .wrapping_sub(&left_cumulative)
                     .into_nonzero()
@@ -341,9 +341,14 @@ where
                 let old_left_cumulative = left_cumulative;
                 left_cumulative = right_cumulative;
                 (symbol, old_left_cumulative, probability)
-            });
+            })
+            .collect::<Vec<_>>();
 
-        Ok(Self::from_symbol_table(symbol_table))
+        if symbol_table.len() != probabilities.len() || symbols.next().is_some() {
+            // The number of symbols differs from the number of probabilities.
+            return Err(());
+        }
+        Ok(Self::from_symbol_table(symbol_table.into_iter()))
     }
 
     /// Deprecated constructor.
